@@ -376,3 +376,176 @@ theorem kept_of_flushOnly_pre (pre post : List (SGCall α))
     List.filter_eq_nil_iff.mpr (fun c hc => by simp [hpre c hc])⟩
 
 end Proofs.C19
+
+/-! ### order of connections and of reassembled datagrams -/
+namespace Proofs.C19
+open FqModel.Reasm
+
+variable {α κ δ : Type}
+
+theorem firstSeen_cons [BEq κ] (k : κ) (d : δ) (rest : List (κ × δ)) :
+    firstSeen ((k, d) :: rest) = (k, d) :: (firstSeen rest).filter fun p => !(p.1 == k) := rfl
+
+theorem firstSeen_sublist [BEq κ] : ∀ l : List (κ × δ), (firstSeen l).Sublist l := by
+  intro l
+  induction l with
+  | nil => exact List.Sublist.slnil
+  | cons p rest ih =>
+    obtain ⟨k, d⟩ := p
+    rw [firstSeen_cons]
+    exact List.Sublist.cons_cons _ ((List.filter_sublist).trans ih)
+
+theorem mem_firstSeen_keys [BEq κ] [LawfulBEq κ] (k : κ) : ∀ l : List (κ × δ),
+    k ∈ (firstSeen l).map (·.1) ↔ k ∈ l.map (·.1) := by
+  intro l
+  induction l with
+  | nil => simp [firstSeen]
+  | cons p rest ih =>
+    obtain ⟨k', d⟩ := p
+    rw [firstSeen_cons]
+    simp only [List.map_cons, List.mem_cons]
+    constructor
+    · rintro (h | h)
+      · exact Or.inl h
+      · right
+        rw [← ih]
+        obtain ⟨q, hq, rfl⟩ := List.mem_map.mp h
+        exact List.mem_map.mpr ⟨q, (List.mem_filter.mp hq).1, rfl⟩
+    · rintro (h | h)
+      · exact Or.inl h
+      · by_cases hk : k = k'
+        · exact Or.inl hk
+        · right
+          obtain ⟨q, hq, rfl⟩ := List.mem_map.mp (ih.mpr h)
+          refine List.mem_map.mpr ⟨q, List.mem_filter.mpr ⟨hq, ?_⟩, rfl⟩
+          simpa using hk
+
+theorem firstSeen_keys_nodup [BEq κ] [LawfulBEq κ] : ∀ l : List (κ × δ), ((firstSeen l).map (·.1)).Nodup := by
+  intro l
+  induction l with
+  | nil => simp [firstSeen]
+  | cons p rest ih =>
+    obtain ⟨k, d⟩ := p
+    rw [firstSeen_cons, List.map_cons, List.nodup_cons]
+    constructor
+    · intro h
+      obtain ⟨q, hq, hk⟩ := List.mem_map.mp h
+      have := (List.mem_filter.mp hq).2
+      simp only [Bool.not_eq_eq_eq_not, Bool.not_true, beq_eq_false_iff_ne, ne_eq] at this
+      exact this hk
+    · exact (ih.sublist ((List.filter_sublist).map _))
+
+/-- the recorded sender is the sender of the connection's FIRST packet -/
+theorem firstSeen_find [BEq κ] [LawfulBEq κ] (k : κ) (d : δ) : ∀ l : List (κ × δ),
+    (k, d) ∈ firstSeen l → l.find? (fun p => p.1 == k) = some (k, d) := by
+  intro l
+  induction l with
+  | nil => intro h; simp [firstSeen] at h
+  | cons p rest ih =>
+    obtain ⟨k', d'⟩ := p
+    rw [firstSeen_cons]
+    intro h
+    rcases List.mem_cons.mp h with h | h
+    · cases h; simp
+    · obtain ⟨h1, h2⟩ := List.mem_filter.mp h
+      have hne : ¬ (k = k') := by simpa using h2
+      have hne' : (k' == k) = false := by
+        simp only [beq_eq_false_iff_ne, ne_eq]
+        exact fun e => hne e.symm
+      rw [List.find?_cons]
+      simp only [hne']
+      exact ih h1
+
+theorem filter_firstSeen_filter [BEq κ] [LawfulBEq κ] (q : κ → Bool) : ∀ l : List (κ × δ),
+    (firstSeen l).filter (fun p => q p.1) = firstSeen (l.filter fun p => q p.1) := by
+  intro l
+  induction l with
+  | nil => rfl
+  | cons p rest ih =>
+    obtain ⟨k, d⟩ := p
+    rw [firstSeen_cons, List.filter_cons, List.filter_cons]
+    cases hq : q k
+    · simp only [Bool.false_eq_true, ↓reduceIte]
+      rw [← ih, List.filter_filter]
+      apply List.filter_congr
+      intro x _
+      by_cases hx : x.1 = k
+      · simp [hx, hq]
+      · simp [hx]
+    · simp only [↓reduceIte]
+      rw [firstSeen_cons, ← ih, List.filter_filter, List.filter_filter]
+      congr 1
+      apply List.filter_congr
+      intro x _
+      exact Bool.and_comm _ _
+
+/-- first appearance order is stable under more packets: the connections of a longer capture are those of
+    the shorter one, in the same order, followed by the new ones -/
+theorem firstSeen_append [BEq κ] [LawfulBEq κ] : ∀ (l m : List (κ × δ)),
+    firstSeen (l ++ m) = firstSeen l ++ (firstSeen m).filter fun p => !(l.map (·.1)).contains p.1 := by
+  intro l
+  induction l with
+  | nil =>
+    intro m
+    simp only [List.nil_append, firstSeen, List.map_nil, List.contains_nil, Bool.not_false]
+    exact (List.filter_eq_self.mpr (fun _ _ => rfl)).symm
+  | cons p rest ih =>
+    intro m
+    obtain ⟨k, d⟩ := p
+    rw [List.cons_append, firstSeen_cons, firstSeen_cons, ih, List.filter_append, List.cons_append, List.filter_filter]
+    congr 2
+    apply List.filter_congr
+    intro x _
+    by_cases hx : x.1 = k
+    · simp [hx]
+    · have : (k == x.1) = false := by simpa using fun e : k = x.1 => hx e.symm
+      simp [hx]
+
+theorem defragRun_append [BEq κ] : ∀ (l m : List (κ × Frag α)) (st : FragGroups κ α),
+    defragRun st (l ++ m) = defragRun st l ++ defragRun (defragState st l) m := by
+  intro l
+  induction l with
+  | nil => intro m st; rfl
+  | cons p rest ih =>
+    intro m st
+    obtain ⟨key, f⟩ := p
+    simp only [List.cons_append, defragRun, defragState]
+    cases h : defragStep st key f with
+    | mk st' out =>
+      cases out with
+      | none => simp only [ih]
+      | some d => simp only [ih, List.cons_append]
+
+theorem defragStep_out [BEq κ] (st : FragGroups κ α) (key : κ) (f : Frag α) (o : κ × List α × Frag α)
+    (h : (defragStep st key f).2 = some o) : o.1 = key ∧ o.2.2 = f := by
+  unfold defragStep at h
+  simp only at h
+  cases hg : defragGroup ((List.lookup key st).getD [] ++ [f]) with
+  | none => rw [hg] at h; cases h
+  | some payload =>
+    rw [hg] at h
+    simp only [Option.some.injEq] at h
+    subst h
+    exact ⟨rfl, rfl⟩
+
+/-- the completed datagrams come in the order in which their completing fragments arrived -/
+theorem defragRun_sublist [BEq κ] : ∀ (l : List (κ × Frag α)) (st : FragGroups κ α),
+    ((defragRun st l).map fun o => (o.1, o.2.2)).Sublist l := by
+  intro l
+  induction l with
+  | nil => intro st; exact List.Sublist.slnil
+  | cons p rest ih =>
+    intro st
+    obtain ⟨key, f⟩ := p
+    simp only [defragRun]
+    cases h : defragStep st key f with
+    | mk st' out =>
+      cases out with
+      | none => exact List.Sublist.cons _ (ih st')
+      | some d =>
+        have := defragStep_out st key f d (by rw [h])
+        simp only [List.map_cons]
+        rw [this.1, this.2]
+        exact List.Sublist.cons_cons _ (ih st')
+
+end Proofs.C19
